@@ -277,7 +277,7 @@ fn cmd_minimise(args: &[String]) -> i32 {
         return 0;
     }
     // clauses with an expected value keep the valid encoding intact and only shrink the suffix
-    if matches!(c.clause.as_str(), "sinks" | "sinks-history" | "sources" | "eof-reject" | "zip-roundtrip" | "ctor-index") {
+    if matches!(c.clause.as_str(), "sinks" | "sinks-history" | "prim-roundtrip" | "sources" | "eof-reject" | "zip-roundtrip" | "ctor-index") {
         // the input is a valid encoding, a content block or goes with a program: kept as it is
         std::fs::write(outp, serde_json::to_vec_pretty(&v).unwrap()).unwrap();
         return 0;
